@@ -49,8 +49,14 @@ def parse_tables(text):
         elif f[0] == "O" and f[1] == "A" and cur is not None:
             ninf = int(f[17])
             infos = [(f[18 + 2 * k], f[19 + 2 * k]) for k in range(ninf)]
-            cur.append({"depth": int(f[4]), "idx": int(f[5]), "type": int(f[6]), "name": f[13],
-                        "lmem": int(f[15]), "tmem": int(f[16]), "infos": infos})
+            o = {"depth": int(f[4]), "idx": int(f[5]), "type": int(f[6]), "name": f[13],
+                 "lmem": int(f[15]), "tmem": int(f[16]), "infos": infos, "nest": int(f[2]), "list": int(f[3]), "kids": [0, 0, 0, 0]}
+            # pre-order with nesting levels: the parent is the last object one level up
+            for q in reversed(cur):
+                if q["nest"] == o["nest"] - 1:
+                    q["kids"][o["list"]] += 1
+                    break
+            cur.append(o)
     return res
 
 
@@ -430,4 +436,71 @@ def xmlload_cases():
         for name, doc, rc, n in xml_documents():
             cases.append(["case xmlload-i%d-%s" % (imp, name), "xmlbackend %d %d" % (imp, imp)] + (["xmlverbose"] if name.startswith(("unknown", "missing", "info-without", "wrong", "no-doctype")) else []) + [XML_TOPO,
                           "xmlload %d s%s" % (len(doc), doc.encode().hex()), "end"])
+    return cases
+
+
+# ---- shape differences: one child list of B (normal, memory, I/O, Misc) lacks k trailing children or one in the
+# middle; the harness also runs diff_build(B, A), so both "A longer" and "B longer" are exercised by every case ----
+SHAPE_SYNTH = ["pack:4 pu:4", "pack:1 [numa] [numa] [numa] [numa] pu:2", "pack:2 l2:3 pu:1"]
+SHAPE_XML = ["tests/hwloc/xml/32em64t-2n8c2t-pci-normalio.xml", "tests/hwloc/xml/24em64t-2n6c2t-pci.xml",
+             "tests/hwloc/xml/16-2gr2gr2n2c+misc.xml", "tests/hwloc/xml/64intel64-fakeKNL-SNC4-hybrid.xml"]
+# (type, name) pairs filtered KEEP_NONE on one side only
+FILTER_TYPES = [(18, "osdev"), (17, "pci"), (16, "bridge"), (19, "misc"), (15, "memcache")]
+
+
+def shape_topos(repo):
+    res = ["topo synthetic " + s for s in SHAPE_SYNTH]
+    for x in SHAPE_XML:
+        p = os.path.join(repo, x)
+        if os.path.exists(p):
+            res.append("topo xml " + p)
+    return res
+
+
+def shape_cases(rng, topos, tables, tier):
+    cases = []
+    per_kind = 2 if tier == "quick" else 6
+    for ti, t in enumerate(topos):
+        objs = tables.get("probe%d" % ti) or []
+        for kind in range(4):
+            parents = [o for o in objs if o["kids"][kind] >= 1]
+            if kind == 3 and not parents:
+                # no Misc object in this topology: insert four under one object first
+                if objs:
+                    o = rng.choice(objs[:8])
+                    pre = ["a misc %d %d %s" % (o["depth"], o["idx"], hx("m%d" % j)) for j in range(4)]
+                    for k in (1, 2, 3):
+                        cases.append(["case shape-t%d-misc-ins-cut%d" % (ti, k), "xmlbackend 1", t] + pre +
+                                     ["b cut %d %d 3 %d" % (o["depth"], o["idx"], k), "build", "end"])
+                    cases.append(["case shape-t%d-misc-ins-mid" % ti, "xmlbackend 1", t] + pre +
+                                 ["b cutmid %d %d 3 1" % (o["depth"], o["idx"]), "build", "end"])
+                    cases.append(["case shape-t%d-misc-ins-add" % ti, "xmlbackend 1", t] + pre +
+                                 ["b misc %d %d %s" % (o["depth"], o["idx"], hx("extra")), "build", "end"])
+                continue
+            parents.sort(key=lambda o: -o["kids"][kind])
+            picked = parents[:per_kind]
+            for o in picked:
+                cnt = o["kids"][kind]
+                for k in (1, 2, 3):
+                    if k <= cnt:
+                        cases.append(["case shape-t%d-k%d-%d.%d-cut%d" % (ti, kind, o["depth"], o["idx"], k), "xmlbackend 1", t,
+                                      "b cut %d %d %d %d" % (o["depth"], o["idx"], kind, k), "build", "end"])
+                if cnt >= 2:
+                    for pos in sorted(set([0, cnt // 2 if cnt // 2 < cnt - 1 else 0])):
+                        cases.append(["case shape-t%d-k%d-%d.%d-mid%d" % (ti, kind, o["depth"], o["idx"], pos), "xmlbackend 1", t,
+                                      "b cutmid %d %d %d %d" % (o["depth"], o["idx"], kind, pos), "build", "end"])
+    return cases
+
+
+def filter_cases(repo):
+    """the same XML loaded with one type filtered out on one side only, both ways round"""
+    cases = []
+    for x in SHAPE_XML:
+        p = os.path.join(repo, x)
+        if not os.path.exists(p):
+            continue
+        base = os.path.basename(x)[:12]
+        for ty, nm in FILTER_TYPES:
+            cases.append(["case filt-%s-%s-inB" % (base, nm), "xmlbackend 1", "topo f%d=1 xml %s" % (ty, p), "topob xml " + p, "build", "end"])
+            cases.append(["case filt-%s-%s-inA" % (base, nm), "xmlbackend 1", "topo xml " + p, "topob f%d=1 xml %s" % (ty, p), "build", "end"])
     return cases
